@@ -10,6 +10,7 @@ import copy
 import io
 import os
 import random
+import re
 import sys
 
 from . import modelgen as mg
@@ -105,11 +106,40 @@ class IniModel(object):
                 self.recreated.append(section)
         s[1].append([norm_key(key), key, value])
 
+    _PLACEHOLDER = re.compile(r"\$\{([^:{}]+):([^{}]+)\}")
+
+    def lookup(self, section, key):
+        s = self._sec(section)
+        if s is None:
+            return None
+        i = self._find(s, key)
+        return None if i < 0 else s[1][i][2]
+
+    def resolve(self, value, depth=0):
+        """Value with ${SECTION:KEY} placeholders replaced by the (edited) values they name; None if a
+        placeholder cannot be resolved (the hand-edited file is then broken in the same way)."""
+        if depth > 8:
+            return None
+        bad = []
+
+        def rep(m):
+            v = self.lookup(m.group(1), m.group(2))
+            if v is None:
+                bad.append(m.group(0))
+                return ""
+            r = self.resolve(v, depth + 1)
+            if r is None:
+                bad.append(m.group(0))
+                return ""
+            return r
+        out = self._PLACEHOLDER.sub(rep, value)
+        return None if bad else out
+
     def items(self):
         out = []
         for name, ents in self.sections:
             for nk, k, v in ents:
-                out.append((name, nk, v))
+                out.append((name, nk, self.resolve(v)))
         return out
 
     def render(self, keep_empty_headers=True):
@@ -349,7 +379,8 @@ def _new_key(rng, spec, sec_name):
 
 def gen_scenario(seed, tier="quick"):
     rng = random.Random(seed)
-    spec = mg.gen_model(rng, {"nr_max": 10, "nrho_max": 5, "max_species": 3, "tables_prob": 0.25, "synonym_prob": 0.15})
+    spec = mg.gen_model(rng, {"nr_max": 10, "nrho_max": 5, "max_species": 3, "tables_prob": 0.25, "synonym_prob": 0.15,
+                              "placeholders_prob": 0.3})
     route = "cli" if rng.random() < 0.5 else "api"
     ops = gen_ops(rng, spec, route)
     if route == "cli":
@@ -423,6 +454,40 @@ def _parse_text(ini):
         return _exc(e)
 
 
+def _query_text(sc, ini):
+    """The same query, asked of the hand-edited file through potable itself (no edit options)."""
+    import tempfile
+    from atsim.potentials.tools import potable
+    scratch = tempfile.mkdtemp(prefix="c14q-")
+    in_path = os.path.join(scratch, "edited.aspot")
+    with open(in_path, "w") as f:
+        f.write(ini)
+    argv = ["potable", in_path]
+    if sc["action"] == "list-items":
+        argv.append("--list-items")
+    elif sc["action"] == "list-item-labels":
+        argv.append("--list-item-labels")
+    else:
+        argv += ["--item-value", "%s:%s" % (sc["query"]["section"], sc["query"]["key"])]
+    old = (sys.argv, sys.stdout, sys.stderr)
+    sys.argv = argv
+    sys.stdout = io.StringIO()
+    sys.stderr = io.StringIO()
+    rec = {"exit": None, "raised": None}
+    try:
+        potable.main()
+        rec["exit"] = 0
+    except SystemExit as e:
+        rec["exit"] = e.code if isinstance(e.code, int) else (0 if e.code is None else 1)
+    except Exception as e:
+        rec["raised"] = type(e).__name__
+    finally:
+        rec["stdout"] = sys.stdout.getvalue()
+        rec["cfg_error"] = "configuration error" in sys.stderr.getvalue()
+        sys.argv, sys.stdout, sys.stderr = old
+    return rec
+
+
 def _tabulate_cp(cp):
     from atsim.potentials.config import Configuration
     try:
@@ -478,9 +543,12 @@ def execute(sc, reference=False):
                 texts.append(m.render(False))
             out["texts"] = texts
             out["parses"] = []
+            out["queries"] = []
             for t in texts:
                 out["renditions"].append(_tabulate_text(t))
                 out["parses"].append(_parse_text(t))
+                if sc["route"] == "cli" and sc["action"] != "tabulate":
+                    out["queries"].append(_query_text(sc, t))
             return out
         if sc["route"] == "api":
             _exec_api(sc, ini, out)
@@ -511,7 +579,10 @@ def _exec_api(sc, ini, out):
         return
     out["parse"] = {"ok": True}
     if sc["action"] == "items":
-        out["items"] = _items_of_cp(cp)
+        try:
+            out["items"] = _items_of_cp(cp)
+        except Exception as e:
+            out["items_error"] = "%s: %s" % (type(e).__name__, str(e)[:160])
     out["tab"] = _tabulate_cp(cp)
 
 
@@ -656,7 +727,12 @@ def judge(sc, ref, res):
                           "detail": "hand edit is well defined but ConfigParser raised %s(%s)" % (p.get("exc"), p.get("msg"))})
             else:
                 _cmp_tab(v, "api", res.get("tab"), ref, ws, tf, sc)
-                if action == "items":
+                unresolvable = any(val is None for s_, k_, val in ref["items"])
+                if action == "items" and res.get("items_error"):
+                    if not unresolvable:
+                        v.append({"class": "C14/items-read-failed/route=api/%s%s" % (ws, tf),
+                                  "detail": "reading the items of the edited parser raised %s although every placeholder of the hand-edited file resolves" % res["items_error"]})
+                elif action == "items" and not unresolvable:
                     want = sorted((s, k, val) for s, k, val in ref["items"])
                     got = sorted((s, k, val) for s, k, val in res.get("items", []))
                     if want != got:
@@ -683,13 +759,24 @@ def judge(sc, ref, res):
                 _cmp_tab(v, "cli", got, ref, ws, tf, sc)
             else:
                 parses = ref.get("parses") or []
+                rq = ref.get("queries") or []
+                same_failure = rq and all((q["raised"], q["exit"], bool(q.get("cfg_error"))) == (c["raised"], c["exit"], bool(c.get("cfg_error"))) for q in rq)
                 if failed and c.get("cfg_error") and parses and all((not p["ok"]) and p.get("cfg") for p in parses):
                     pass    # the hand-edited file is itself refused by the parser with a configuration error
+                elif failed and same_failure:
+                    pass    # asking the hand-edited file the same question fails in exactly the same way (e.g. a placeholder naming a removed item)
                 elif failed:
                     v.append({"class": "C14/query-failed/action=%s/%s%s" % (action, ws, tf),
                               "detail": "potable %s on a well-defined edit: %s" % (action, _cli(c))})
                 else:
                     lines = [l for l in c["stdout"].split("\n") if l != ""]
+                    if any(val is None for s_, k_, val in ref["items"]):
+                        # an unresolvable placeholder somewhere: the independent model has no expectation, use the
+                        # differential one (potable asked about the hand-edited file)
+                        if rq and not any(sorted(l for l in q["stdout"].split("\n") if l != "") == sorted(lines) for q in rq if q["exit"] == 0):
+                            v.append({"class": "C14/query-output-differs/action=%s/vs-hand-edited-file" % action,
+                                      "detail": "potable %s printed %r; the same query on the hand-edited file printed %r" % (action, sorted(lines)[:6], [q["stdout"][:200] for q in rq])})
+                        return v if not (sc.get("second_parser") and ("second" in res or "second_cli" in res)) else _second_checks(sc, ref, res, v, route)
                     if action == "list-items":
                         want = sorted("%s:%s=%s" % (s, k, val) for s, k, val in ref["items"])
                     elif action == "list-item-labels":
@@ -701,6 +788,10 @@ def judge(sc, ref, res):
                         kind = _list_diff_kind(lines, want)
                         v.append({"class": "C14/query-output-differs/action=%s/%s" % (action, kind),
                                   "detail": "potable %s printed %r; the edited file holds %r" % (action, _diff(sorted(lines), sorted(want)), "")})
+    return _second_checks(sc, ref, res, v, route)
+
+
+def _second_checks(sc, ref, res, v, route):
     if sc.get("second_parser") and "second_cli" in res:
         a, b = res["second_cli"], ref["unedited"]
         if (a.get("ok"), a.get("sha")) != (b.get("ok"), b.get("sha")) or (not a.get("ok") and bool(a.get("cfg")) != bool(b.get("cfg"))):
